@@ -175,6 +175,7 @@ class FunctionReport:
         self.unknown_feasibility = 0
         self.feasibility_queries = 0
         self.slow_queries = []
+        self.deps_sha = None
 
 
 def verify_function(reg, c, budget_paths=MAX_PATHS):
@@ -229,7 +230,25 @@ def verify_function(reg, c, budget_paths=MAX_PATHS):
         rep.feasibility_queries += stats.get('feasibility_queries', 0)
         rep.slow_queries.extend(stats.get('slow_queries', []))
     rep.wall = time.time() - t0
+    rep.deps_sha = _deps_sha(reg, c, rep)
     return rep
+
+
+def _deps_sha(reg, c, rep):
+    """hash of the source text the obligations of this function were generated from: the function
+    itself and every repository function that was interpreted (inlined) while verifying it"""
+    import hashlib
+    import importlib
+    parts = [rep.sha or '']
+    for q in sorted(rep.inlined):
+        modname, _, path = q.partition(':')
+        try:
+            obj, _owner = frontend.resolve_qualified(q)
+            f = frontend.raw_function(obj)
+            parts.append(q + '=' + (frontend.funcinfo_of(f).source_sha or ''))
+        except Exception:
+            parts.append(q + '=?')
+    return hashlib.sha256('\n'.join(parts).encode()).hexdigest()
 
 
 def _cleanup(st):
